@@ -419,6 +419,29 @@ class Ctx:
         open(stamp, "w").write(h.hexdigest())
         return out
 
+    def coqchk(self, timeout=2400):
+        """Thorough tier: re-check Properties/<prop>.vo and everything it depends on with the
+        independent checker coqchk and record the axioms it reports."""
+        t = time.time()
+        cmd = ["timeout", str(timeout), "coqchk", "-silent", "-o", "-Q", ".", "PV", "PV.Properties." + self.prop]
+        rc, out = sh(cmd, cwd=COQ, timeout=timeout + 30)
+        if rc != 0 and rc != 124:
+            # a concurrent build may have been rewriting a .vo: once more, under the build lock
+            with Lock("coq"):
+                rc, out = sh(cmd, cwd=COQ, timeout=timeout + 30)
+        self.log("coqchk: rc=%d %.1fs" % (rc, time.time() - t))
+        summary = out[out.find("CONTEXT SUMMARY"):] if "CONTEXT SUMMARY" in out else out[-2000:]
+        open(os.path.join(LOGS, "%s.coqchk.log" % self.prop), "w").write(out)
+        if rc != 0:
+            self.broken("coqchk rejected (or timed out on) the compiled proofs of %s" % self.prop, out[-3000:])
+            return None
+        m = re.search(r"\* Axioms:(.*?)\n\s*\n\* Constants/Inductives relying on type-in-type", summary, re.S)
+        axioms = [a.strip() for a in (m.group(1).split("\n") if m else []) if a.strip() and a.strip() != "<none>"]
+        bad = [l for l in summary.split("\n") if ("type-in-type" in l or "unsafe" in l or "positivity is assumed" in l) and "<none>" not in l]
+        if bad:
+            self.broken("coqchk reports disabled kernel checks", summary)
+        return {"coqchk_axioms": axioms, "coqchk_wall_s": round(time.time() - t, 1)}
+
     # -- reporting
     def write_replay(self, tag, text):
         n = len(glob.glob(os.path.join(VERIF, "replays", "%s-*" % self.prop)))
@@ -664,6 +687,10 @@ def standard(ctx, harness, extracted, driver_dir, rule, key_fn=None, what_fn=Non
             st2 = correspondence(ctx, h, m, key_fn=key_fn, what_fn=what_fn, tier="thorough", label="escalated", run_timeout=run_timeout)
             if st2:
                 cov["escalated_evaluations"] = st2["evaluations"]
+    if not ctx.quick() and not ctx.replay and model_ok and not ctx.brokens:
+        ck = ctx.coqchk()
+        if ck:
+            cov.update(ck)
     if extra_cov:
         cov.update(extra_cov)
     cov["trusted_base_extra"] = list(trusted)
